@@ -1037,7 +1037,22 @@ fn analysis_lines(s: &mut Session, g: &Graph, with_sntree: bool) -> Vec<String> 
 fn run_lines(s: &mut Session, lines: Vec<String>, per_child: usize) {
     prefetch(&lines, per_child);
     for l in lines {
-        s.submit(l);
+        let is_analysis = l.starts_with("analysis");
+        let merge = if l.contains("merge=none") { "none" } else if l.contains("merge=parent_child") { "parent_child" } else { "clique_graph" };
+        let out = s.submit(l);
+        if is_analysis {
+            if let Some(o) = Req::parse(&format!("x {}", out)) {
+                if o.has("ncl") && o.has("snode_len") {
+                    let ncl = o.u("ncl");
+                    let before = o.us("snode_len").len();
+                    let bucket = if ncl == 1 { "1" } else if ncl <= 3 { "2-3" } else if ncl <= 10 { "4-10" } else { ">10" };
+                    s.count(&format!("result:{}:cliques={}", merge, bucket));
+                    if before > ncl {
+                        s.count(&format!("result:{}:merged-some", merge));
+                    }
+                }
+            }
+        }
     }
 }
 
@@ -1263,6 +1278,22 @@ fn gen_analysis(s: &mut Session) {
             s.count(&format!("graphs-exhaustive:n={}", n));
             run_lines(s, lines, 400);
         }
+        if !s.thorough() {
+            // quick tier: samples of the graphs on 6 and 7 vertices (exhaustive n = 6 in thorough)
+            let mut lines = vec![];
+            for (nv, cnt) in [(6usize, 1500usize), (7, 700)] {
+                let pairs: Vec<(usize, usize)> = (0..nv).flat_map(|j| (0..j).map(move |i| (i, j))).collect();
+                for _ in 0..cnt {
+                    let m = s.rng.next_u64() & ((1u64 << pairs.len()) - 1);
+                    // vary the density: and-ing two masks thins the graph out
+                    let m = if s.rng.bool(0.5) { m & s.rng.next_u64() } else { m };
+                    let g: Graph = (nv, pairs.iter().enumerate().filter(|(k, _)| m >> k & 1 == 1).map(|(_, &p)| p).collect());
+                    lines.extend(analysis_lines(s, &g, false));
+                }
+                s.count(&format!("graphs-sampled:n={}", nv));
+            }
+            run_lines(s, lines, 400);
+        }
         if s.thorough() {
             // n = 7: a sample of the 2^21 graphs
             let mut lines = vec![];
@@ -1279,7 +1310,7 @@ fn gen_analysis(s: &mut Session) {
     // random families
     let nmax = if s.thorough() { 300 } else { 120 };
     let mut lines = vec![];
-    for k in 0..s.budget(130, 3000) {
+    for k in 0..s.budget(300, 4000) {
         let cap = if k % 4 == 0 { nmax } else { 40 };
         let (g, fam) = random_graph(&mut s.rng, cap);
         s.count(&format!("graph:{}", fam));
@@ -1290,7 +1321,7 @@ fn gen_analysis(s: &mut Session) {
 
     // ChordalInfo::new : several PSD cones, dense / sparse / tiny
     let mut lines = vec![];
-    for _ in 0..s.budget(60, 1500) {
+    for _ in 0..s.budget(150, 2000) {
         let ncones = 1 + s.rng.below(3);
         let mut dims = vec![];
         let mut rows = vec![];
